@@ -18,8 +18,9 @@ import (
 	"io"
 	"os"
 	"runtime"
+	"runtime/debug"
 	"sort"
-	"strings"
+	"strconv"
 	"sync"
 	"sync/atomic"
 	"syscall"
@@ -62,6 +63,7 @@ type c07Checker struct {
 	r        *vrep.Result
 	maxLen   int
 	thorough bool
+	blank    bool // the search over BlankHosts
 
 	probed  sync.Map // pkey -> struct{}: states whose opens have been enumerated
 	opens   atomic.Int64
@@ -383,11 +385,12 @@ func (ck *c07Checker) classify(in *c07Inst, atts []*c07Attempt, window []*c07Inv
 			}
 			res = fmt.Sprintf("ok req#%d %s", idx, kind)
 		}
-		conc := ""
+		cls := fmt.Sprintf("%s %s %s common=%v", c07ConnName[a.dk], path, res, in.common(a.list))
 		if len(atts) > 1 {
-			conc = " concurrent"
+			// which of two concurrent opens finds the protocol already recorded by the other (and so takes the
+			// optimistic path) is up to the scheduler: not part of the class
+			cls = fmt.Sprintf("%s concurrent %s common=%v", c07ConnName[a.dk], res, in.common(a.list))
 		}
-		cls := fmt.Sprintf("%s%s %s %s common=%v", c07ConnName[a.dk], conc, path, res, in.common(a.list))
 		ck.r.Outcome(cls)
 		ck.mu.Lock()
 		ck.classes[fmt.Sprintf("%s|%v|%s", in.pkey, a.list, cls)] = struct{}{}
@@ -472,20 +475,31 @@ func c07RealNow() int64 {
 
 // ---------- the check ----------
 
-func TestVerifC07(t *testing.T) {
-	if p := vrep.ReplayPath(); p != "" {
-		c07Replay(t, p)
-		return
-	}
-	r := vrep.New("C07", "negotiation")
-	ck := &c07Checker{r: r, maxLen: 2, thorough: vrep.Thorough(), classes: map[string]struct{}{}, caps: map[string]int{}}
-	depth := 3
+func c07NewChecker(part string, blank bool) *c07Checker {
+	ck := &c07Checker{r: vrep.New("C07", part), maxLen: 2, thorough: vrep.Thorough(), blank: blank, classes: map[string]struct{}{}, caps: map[string]int{}}
 	if ck.thorough {
-		depth, ck.maxLen = 4, 3
+		ck.maxLen = 3
 	}
+	return ck
+}
+
+// c07Search runs one state search (BasicHosts, or BlankHosts) and writes its record.
+func c07Search(t *testing.T, part string, blank bool, depth int) {
+	ck := c07NewChecker(part, blank)
+	r := ck.r
 	r.Bounds["universe"] = c07U
-	r.Bounds["history_depth"] = depth
-	r.Bounds["operations"] = "set exact / set match(prefix /a/) / remove, each via the host API (identify push) or directly on the mux (stale knowledge); dialers forget; dialers learn by opening"
+	if depth >= 1<<20 {
+		r.Bounds["history_depth"] = "closure (finite state space)"
+	} else {
+		r.Bounds["history_depth"] = depth
+	}
+	if blank {
+		r.Bounds["hosts"] = "BlankHost listener, two BlankHost dialers (no identify: every open negotiates)"
+		r.Bounds["operations"] = "set exact / set match(prefix /a/) / remove through the host API"
+	} else {
+		r.Bounds["hosts"] = "BasicHost listener, two BasicHost dialers (identify, identify push, optimistic negotiation)"
+		r.Bounds["operations"] = "set exact / set match(prefix /a/) / remove, each via the host API (identify push) or directly on the mux (stale knowledge); dialers forget; dialers learn by opening"
+	}
 	r.Bounds["request_list_len"] = fmt.Sprintf("1..%d (ordered, with repetition)", ck.maxLen)
 	r.Bounds["connections"] = "direct and limited (Stat().Limited, opened with WithAllowLimitedConn)"
 	r.Bounds["concurrent_opens"] = 2
@@ -495,26 +509,21 @@ func TestVerifC07(t *testing.T) {
 		in := c07NewInst(ck)
 		if err := ck.visit(in); err != nil {
 			v := err.(*seqmc.Vio)
-			r.Violate(v.Key, v.Desc, map[string]any{"search": "C07", "history": []string{}})
+			r.Violate(v.Key, v.Desc, map[string]any{"search": part, "history": []string{}})
 		}
 		in.close()
 	})
 
-	alphabet := c07Alphabet()
+	alphabet := c07Alphabet(blank)
 	sp := &seqmc.Spec[*c07Inst, c07Op]{
-		Name:  "C07",
+		Name: part,
 		New: func() *c07Inst {
 			t0 := c07RealNow()
 			defer func() { ck.tNew.Add(c07RealNow() - t0); ck.nNew.Add(1) }()
 			return c07NewInst(ck)
 		},
 		Close: func(in *c07Inst) { in.close() },
-		Ops: func(in *c07Inst) []c07Op {
-			if in.broken != "" {
-				return nil
-			}
-			return alphabet
-		},
+		Ops:   func(in *c07Inst) []c07Op { return in.enabled(alphabet) },
 		Apply: func(in *c07Inst, op c07Op) error {
 			if in.broken != "" {
 				return nil
@@ -550,6 +559,24 @@ func TestVerifC07(t *testing.T) {
 	r.Flush()
 }
 
+func TestVerifC07(t *testing.T) {
+	if p := vrep.ReplayPath(); p != "" {
+		c07Replay(t, p)
+		return
+	}
+	defer debug.SetGCPercent(debug.SetGCPercent(400)) // thousands of short-lived host triples: trade memory for GC work
+	depth := 3
+	if vrep.Thorough() {
+		depth = 4
+	}
+	if v, err := strconv.Atoi(os.Getenv("VERIF_C07_DEPTH")); err == nil && v > 0 {
+		depth = v // experiments only; the evidence reports the depth actually used
+	}
+	c07Search(t, "negotiation", false, depth)
+	// BlankHosts have no identify, so the state is the listener's mux alone: finite, searched to closure.
+	c07Search(t, "blankhost", true, 1<<20)
+}
+
 // c07Replay re-executes one recorded history (check.py --replay): the operations are applied to fresh hosts
 // and the final state's opens are enumerated again.
 func c07Replay(t *testing.T, path string) {
@@ -559,6 +586,7 @@ func c07Replay(t *testing.T, path string) {
 		return
 	}
 	var rec struct {
+		Part   string `json:"part"`
 		Key    string `json:"key"`
 		Replay struct {
 			History []string `json:"history"`
@@ -568,15 +596,17 @@ func c07Replay(t *testing.T, path string) {
 		t.Logf("replay: %v", err)
 		return
 	}
+	blank := rec.Part == "blankhost"
 	byName := map[string]c07Op{}
-	for _, o := range c07Alphabet() {
+	for _, o := range c07Alphabet(blank) {
 		byName[c07ShowOp(o)] = o
 	}
-	r := vrep.New("C07", "negotiation")
-	ck := &c07Checker{r: r, maxLen: 2, thorough: vrep.Thorough(), classes: map[string]struct{}{}, caps: map[string]int{}}
-	if ck.thorough {
-		ck.maxLen = 3
+	part := "negotiation"
+	if blank {
+		part = "blankhost"
 	}
+	ck := c07NewChecker(part, blank)
+	r := ck.r
 	synctest.Test(t, func(*testing.T) {
 		in := c07NewInst(ck)
 		defer in.close()
@@ -603,12 +633,11 @@ func c07Replay(t *testing.T, path string) {
 		if verr != nil {
 			v := verr.(*seqmc.Vio)
 			fmt.Printf("replay: VIOLATION %s: %s\n", v.Key, v.Desc)
-			r.Violate(v.Key, v.Desc, map[string]any{"search": "C07", "history": rec.Replay.History})
+			r.Violate(v.Key, v.Desc, map[string]any{"search": part, "history": rec.Replay.History})
 		} else {
 			fmt.Printf("replay: no violation (%d opens)\n", ck.opens.Load())
 		}
 	})
 	r.Executions = ck.opens.Load()
 	r.Flush()
-	_ = strings.TrimSpace
 }
